@@ -63,6 +63,11 @@ CLAIMED = {
    note="Trusted: Coq kernel + vm_compute; table extractor; facade construction harness (no network, tasks/threads not started). Partial: combo_ready <-> real construction is checked exhaustively on the 895 combinations rather than proved from a model of the constructors; member evaluation on non-zero blocks covers a rotating third of the combinations in the quick tier. Known findings K3 (18 combinations) are an explicit exception list. One defect repaired (fix 4f27235).",
    technique="Rocq: finite vm_compute obligations over regenerated tables + general totality lemmas (get_value_total) + exhaustive differential construction of the real facades",
    design="3/C11"),
+ "C13": dict(
+   text="Machine-checked proof over a model of the facade commands composed from the accessor (C02), temperature (C14), wire (C04) and AST-translated counter (C16) models: a pump mode emits exactly one SPACK set-value carrying the pack type and config/log versions and a command-range number which, applied by the spa, makes the demand read the requested mode and changes nothing outside the item; on/off devices emit nothing when already in the requested state (for every current state) and otherwise exactly one key press with the device's keypad code (or one direct write for eco mode) after which the device reads the requested state; every representable target temperature is written as exactly its word; for ANY command sequence each command emits at most one datagram, pack commands numbered in 192..255, watercare in 1..191. Correspondence: the REAL async stack (real handshake against the in-process simulator under virtual time, real facade) on shipped snapshots with random command sequences; datagrams reaching the spa compared with the model per command, read-back after the spa's echo checked.",
+   note="Trusted: Coq kernel + vm_compute (+ primitive floats); session harness. Environment specification (assumption): the spa applies set-values big-endian, toggles the device of a key press and echoes a STATP; echo delivered separately from the PACKS reply (when both arrive in one burst the client's unhandled-datagram consumer can discard the echo - finding K5, see C07/C09). One attempt per command (retries are C06).",
+   technique="Rocq proof composing earlier models (corollaries of C02/C14/C16 theorems, induction over command sequences) + real-stack differential runs under virtual time",
+   design="3/C13"),
 }
 
 REASON_PENDING = "check not built yet in this round (model and correspondence under construction; see DESIGN.md section 8)"
